@@ -71,7 +71,7 @@ def showImg (im : Img) : String :=
   " ".intercalate (im.slabs.map showSlab)
 
 /-- root with pixel array: C rid cs series scalar T time date -/
-def pRootA (C : Nat) : P (Except Err ImgA) := do
+def pRootA (C : List Nat) : P (Except Err ImgA) := do
   let rid ← P.nat
   let cs ← pCS
   let series ← P.bool; let scalar ← P.bool; let T ← P.nat
@@ -87,10 +87,10 @@ def boxC : List Nat → List (List Nat)
 def flatC (shape idx : List Nat) : Nat := (List.zip shape idx).foldl (fun acc p => acc * p.1 + p.2) 0
 
 /-- the whole pixel array as numpy prints it: shape, then every entry's tag encoded like the harness payload -/
-def showArr (rootShape : List Nat) (a : ImgA) : String :=
+def showArr (C rootShape : List Nat) (a : ImgA) : String :=
   showNats a.arr.shape ++ " | " ++ showNats ((boxC a.arr.shape).map fun idx =>
     let tg := a.arr.get idx
-    ((tg.rid * 8 + tg.t) * 4096 + flatC rootShape tg.vox) * 2 + tg.comp)
+    ((tg.rid * 8 + tg.t) * 4096 + flatC rootShape tg.vox) * (if C.isEmpty then 2 else prodL C) + flatC C tg.comp)
 
 def handle : P String := do
   let op ← P.tok
@@ -111,18 +111,18 @@ def handle : P String := do
     let a ← pRoot; let b ← pRoot; let off ← P.opt P.rat; let steps ← pSteps
     pure (showExcept showImg (do let x ← a; let y ← b; let s ← x.append y off; s.run steps))
   | "aprog" => do
-    let C ← P.nat; let r ← pRootA C; let steps ← pSteps
-    pure (showExcept (fun x => x) (do let im ← r; let f ← im.run steps; pure (showArr im.md.cs.shape f)))
+    let C ← P.list P.nat; let r ← pRootA C; let steps ← pSteps
+    pure (showExcept (fun x => x) (do let im ← r; let f ← im.run steps; pure (showArr C im.md.cs.shape f)))
   | "astack" => do
-    let C ← P.nat; let roots ← P.list (pRootA C); let steps ← pSteps
+    let C ← P.list P.nat; let roots ← P.list (pRootA C); let steps ← pSteps
     pure (showExcept (fun x => x) (do
       let ims ← roots.mapM id; let s ← stackA ims; let f ← s.run steps
-      pure (showArr ((ims.head?.map (·.md.cs.shape)).getD []) f)))
+      pure (showArr C ((ims.head?.map (·.md.cs.shape)).getD []) f)))
   | "aappend" => do
-    let C ← P.nat; let a ← pRootA C; let b ← pRootA C; let off ← P.opt P.rat; let steps ← pSteps
+    let C ← P.list P.nat; let a ← pRootA C; let b ← pRootA C; let off ← P.opt P.rat; let steps ← pSteps
     pure (showExcept (fun x => x) (do
       let x ← a; let y ← b; let s ← x.append y off; let f ← s.run steps
-      pure (showArr x.md.cs.shape f)))
+      pure (showArr C x.md.cs.shape f)))
   | _ => failure
 
 def dispatch (toks : List String) : Option String := (handle.run toks).map Prod.fst
